@@ -7,6 +7,9 @@ import HydroVerif.Model.C05
 import HydroVerif.Lemmas.C07Grid
 import Mathlib.Tactic.Linarith
 import Mathlib.Tactic.Ring
+import Mathlib.Data.List.Perm.Subperm
+import Mathlib.Data.List.Range
+import Mathlib.Data.List.Nodup
 
 namespace HydroVerif.C05
 
@@ -64,8 +67,11 @@ def I32 (x : Int) : Prop := -2147483648 ≤ x ∧ x ≤ 2147483647
 /-- a `long long` value -/
 def I64 (x : Int) : Prop := -9223372036854775808 ≤ x ∧ x ≤ 9223372036854775807
 
-theorem wp_cmod {a b : Int} {Q : Int → Prop} (hb : b ≠ 0) (h : Q (a.tmod b)) : wp (cmod a b) Q :=
-  ⟨a.tmod b, by simp [cmod, hb], h⟩
+/-- C remainder: for a non-negative dividend and a positive divisor it lies in `0 .. b-1` -/
+theorem wp_cmod {a b : Int} {Q : Int → Prop} (hb : b ≠ 0)
+    (h : ∀ m, (0 ≤ a → 0 < b → 0 ≤ m ∧ m < b) → Q m) : wp (cmod a b) Q :=
+  ⟨a.tmod b, by simp [cmod, hb],
+    h _ (fun ha hb' => ⟨Int.tmod_nonneg _ ha, Int.tmod_lt_of_pos _ hb'⟩)⟩
 
 theorem wp_cdiv {a b : Int} {Q : Int → Prop} (hb : b ≠ 0) (h : Q (a.tdiv b)) : wp (cdiv a b) Q :=
   ⟨a.tdiv b, by simp [cdiv, hb], h⟩
@@ -156,12 +162,12 @@ macro "wp_post1" : tactic =>
 /-- runs `wp_step` through a model, discharging bounds with `omega`; stops at loops with state
 (`wp_forLoop` needs its invariant) and at results that must be split by cases -/
 macro "wp_run" : tactic =>
-  `(tactic| repeat' (first | omega | trivial | (simp only [constExt_apply, nbExt, oneExt, arMax] at *; omega) | wp_step | (refine wp_cmod ?_ ?_) | (refine wp_cdiv ?_ ?_) | (refine wp_forEach (fun _ _ _ => ?_) ?_) | wp_post1 | (refine wp_forLoop (fun _ _ => True) _ _ _ trivial (fun _ _ _ _ _ => ?_) (fun _ _ => ?_)) | split))
+  `(tactic| repeat' (first | omega | trivial | (simp only [constExt_apply, nbExt, oneExt, arMax] at *; omega) | (refine wp_cmod ?_ (fun _ _ => ?_)) | (refine wp_cdiv ?_ ?_) | wp_step | (refine wp_forEach (fun _ _ _ => ?_) ?_) | wp_post1 | (refine wp_forLoop (fun _ _ => True) _ _ _ trivial (fun _ _ _ _ _ => ?_) (fun _ _ => ?_)) | split))
 
 /-- like `wp_run`, but stops at every loop with state and never splits a `match` (used where facts about
 the loop variable — products — must be added by hand before going on) -/
 macro "wp_lin" : tactic =>
-  `(tactic| repeat' (first | omega | trivial | (simp only [constExt_apply, nbExt, oneExt, arMax] at *; omega) | wp_step | (refine wp_cmod ?_ ?_) | (refine wp_cdiv ?_ ?_) | (refine wp_forEach (fun _ _ _ => ?_) ?_) | wp_post1))
+  `(tactic| repeat' (first | omega | trivial | (simp only [constExt_apply, nbExt, oneExt, arMax] at *; omega) | (refine wp_cmod ?_ (fun _ _ => ?_)) | (refine wp_cdiv ?_ ?_) | wp_step | (refine wp_forEach (fun _ _ _ => ?_) ?_) | wp_post1))
 
 /-- `m*i + j` stays inside `m*n` for `0 ≤ i < n`, `0 ≤ j < m` (row-major indexing) -/
 theorem mul_idx_bound {m n i : Int} (hm : 0 ≤ m) (hi0 : 0 ≤ i) (hi : i < n) :
@@ -307,5 +313,126 @@ theorem wp_upstream1 {e : Ext} {nrows ncols : Int} {code fdir : Nat → Int} {ro
       have := hx k rfl
       wp_lin
 
+
+theorem length_le_of_nodup_range {N : Int} (hN : 0 ≤ N) (l : List Int) (hnd : l.Nodup)
+    (hr : ∀ x ∈ l, 0 ≤ x ∧ x < N) : (l.length : Int) ≤ N := by
+  have hsub : l.map Int.toNat ⊆ List.range N.toNat := by
+    intro n hn
+    obtain ⟨x, hx, rfl⟩ := List.mem_map.1 hn
+    have := hr x hx
+    exact List.mem_range.2 (by omega)
+  have hnd' : (l.map Int.toNat).Nodup := by
+    refine List.Nodup.map_on ?_ hnd
+    intro x hx y hy hxy
+    have := hr x hx; have := hr y hy
+    omega
+  have := (List.subperm_of_subset hnd' hsub).length_le
+  simp at this
+  omega
+
+/-- loop rule with a post-condition `P` for the early exits -/
+theorem wp_forLoopP {σ ρ : Type} (Inv : Int → σ → Prop) (P : ρ → Prop) {body : Int → σ → R (σ ⊕ ρ)} :
+    ∀ (k : Nat) (i : Int) (s : σ) {Q : σ ⊕ ρ → Prop}, Inv i s →
+      (∀ j s, i ≤ j → j < i + k → Inv j s →
+        wp (body j s) (fun x => (∀ s', x = .inl s' → Inv (j + 1) s') ∧ (∀ r, x = .inr r → P r))) →
+      (∀ x, (∀ s', x = .inl s' → Inv (i + k) s') → (∀ r, x = .inr r → P r) → Q x) →
+      wp (forLoop body k i s) Q := by
+  intro k
+  induction k with
+  | zero =>
+    intro i s Q h _ hq
+    exact ⟨.inl s, rfl, hq _ (by intro s' hs; cases hs; simpa using h) (by intro r hr; cases hr)⟩
+  | succ k ih =>
+    intro i s Q h hb hq
+    obtain ⟨x, hx, hinv, hp⟩ := hb i s (Int.le_refl _) (by omega) h
+    cases x with
+    | inr r => exact ⟨.inr r, by simp [forLoop, hx], hq _ (by intro s' hs; cases hs) (by intro r' hr; cases hr; exact hp r rfl)⟩
+    | inl s1 =>
+      have h2 := ih (i + 1) s1 (Q := Q) (hinv s1 rfl)
+        (fun j s hj1 hj2 hI => hb j s (by omega) (by omega) hI)
+        (fun x hx hpx => hq x (by
+          intro s' hs
+          have := hx s' hs
+          have e : i + 1 + (k : Int) = i + ((k + 1 : Nat) : Int) := by push_cast; omega
+          rw [e] at this; exact this) hpx)
+      obtain ⟨y, hy, hqy⟩ := h2
+      exact ⟨y, by simp [forLoop, hx, hy], hqy⟩
+
+theorem wp_intersectFind {e : Ext} {stored : List Int} {c : Int}
+    (h1 : stored.length ≤ e .idxcells) (h2 : stored.length ≤ e .weights) :
+    wp (intersectFind e stored c) (fun found => found = true ↔ c ∈ stored) := by
+  unfold intersectFind
+  refine wp_bind (wp_forLoopP (fun j _ => ∀ k : Nat, (k : Int) < j → stored.getD k (-1) ≠ c)
+    (fun _ => c ∈ stored) _ _ _ (by intro k hk; omega) ?_ ?_)
+  · intro j _ hj0 hj1 hI
+    wp_lin
+    · constructor
+      · intro s' hs; cases hs
+      · intro r _
+        have heq : stored.getD j.toNat (-1) = c := by assumption
+        have hlt : j.toNat < stored.length := by omega
+        simp only [List.getD_eq_getElem?_getD, List.getElem?_eq_getElem hlt, Option.getD_some] at heq
+        rw [← heq]
+        exact List.getElem_mem _
+    · constructor
+      · intro s' hs; cases hs
+        intro k hk
+        by_cases hkj : (k : Int) < j
+        · exact hI k hkj
+        · have : k = j.toNat := by omega
+          subst this
+          assumption
+      · intro r hr; cases hr
+  · intro x hinv hp
+    cases x with
+    | inr r => exact wp_pure (by simp; exact hp r rfl)
+    | inl u =>
+      refine wp_pure ?_
+      simp only [Bool.false_eq_true, false_iff]
+      intro hmem
+      obtain ⟨k, hk, hke⟩ := List.getElem_of_mem hmem
+      have := hinv u rfl k (by simp; omega)
+      simp only [List.getD_eq_getElem?_getD, List.getElem?_eq_getElem hk, Option.getD_some] at this
+      exact this hke
+theorem wp_var2hScan {e : Ext} {nvalvar hstart : Int} {sec : Nat → Int} (h : nvalvar ≤ e .varsec) :
+    wp (var2hScan e nvalvar hstart sec)
+      (fun v0 => 0 ≤ v0 ∧ (1 ≤ v0 → v0 + 1 ≤ nvalvar ∧ sec (v0 - 1).toNat ≤ hstart)) := by
+  unfold var2hScan
+  refine wp_bind (wp_forLoopP (fun j _ => 1 ≤ j → sec (j - 1).toNat ≤ hstart)
+    (fun r => 0 ≤ r ∧ r + 1 < nvalvar ∧ (1 ≤ r → sec (r - 1).toNat ≤ hstart)) _ _ _ (by intro h; omega) ?_ ?_)
+  · intro j _ hj0 hj1 hI
+    wp_lin
+    · constructor
+      · intro s' hs; cases hs
+        intro _
+        have : j + 1 - 1 = j := by omega
+        rw [this]; assumption
+      · intro r hr; cases hr
+    · constructor
+      · intro s' hs; cases hs
+      · intro r hr; cases hr
+        exact ⟨hj0, by omega, hI⟩
+  · intro x hinv hp
+    cases x with
+    | inr j =>
+      have := hp j rfl
+      exact wp_pure ⟨this.1, fun h1 => ⟨by omega, this.2.2 h1⟩⟩
+    | inl u =>
+      have := hinv u rfl
+      refine wp_pure ?_
+      split
+      · exact ⟨le_refl 0, fun h1 => by omega⟩
+      · refine ⟨by omega, fun h1 => ⟨by omega, ?_⟩⟩
+        have e1 : (0:Int) + ((nvalvar - 1).toNat : Int) = nvalvar - 1 := by omega
+        rw [e1] at this
+        exact this h1
+
+theorem safe_of_isOk {α : Type} {r : R α} (h : isOk r = true) : Safe r := by
+  cases r with
+  | ok x => exact ⟨x, rfl⟩
+  | error f => cases h
+
+theorem combi_table : ∀ n : Fin 61, ∀ k : Fin 31, isOk (combi (n : Nat) (k : Nat)) = true := by
+  decide +kernel
 
 end HydroVerif.C05
